@@ -651,7 +651,9 @@ pub fn sanitize_unknown(spec: &SpecTable, forest: &mut [Node], writer_view: bool
                             || m_path.iter().any(|p| matches!(p, PathPart::Id(x) if *x == d.id))
                             || spec.get(d.id).map(|e| e.path == m_path || e.is_root()).unwrap_or(false)
                     });
-                    if next_id.is_some() || inner_closer {
+                    // (a ROOT element as the follower is no question either: it ends every open unknown-size master, whatever their paths)
+                    let follower_decides = next_id.map(|nx| !spec.get(nx).map(|e| e.is_root()).unwrap_or(false)).unwrap_or(false);
+                    if follower_decides || inner_closer {
                         *c1 += 1;
                         clear = true;
                     }
